@@ -45,8 +45,28 @@ def c_obs_shift(evs):
 
 
 def c_remove(evs):
-    i = first(evs, is_succ_step)
-    del evs[i]
+    # a successful step whose environment goes on acting before it is reset (a step that is followed by a reset at
+    # once leaves nothing behind that a log could show)
+    for i, e in enumerate(evs):
+        if not is_succ_step(e) or not e["post_rows"]:
+            continue
+        nxt = [x for x in evs[i + 1:] if x.get("env") == e["env"] and x["ev"] in ("step", "genstep", "reset")]
+        if nxt and nxt[0]["ev"] != "reset":
+            del evs[i]
+            return
+    raise LookupError("no event for corruption")
+
+
+def c_narrow_create(evs):
+    """every state row of the first create event loses its last column (an environment built with other dimensions):
+    must be reported under C09 and must not stop the monitor"""
+    i = first(evs, lambda e: e["ev"] == "create")
+    evs[i]["tensor"] = [r[:-1] for r in evs[i]["tensor"]]
+
+
+def c_narrow_step(evs):
+    i = first(evs, lambda e: e["ev"] == "step" and e["post_rows"])
+    evs[i]["post_rows"] = [[r[0], r[1][:-1]] for r in evs[i]["post_rows"]]
 
 
 def c_mask(evs):
@@ -161,6 +181,8 @@ def corruptions(cs):
         ("flip one readable flag", c_readable, {"C09"}),
         ("flip terminated", c_term, {"C06"}),
         ("flip truncated", c_trunc, {"C06"}),
+        ("state rows of a create event one column short", c_narrow_create, {"C09"}),
+        ("changed rows of a step one column short", c_narrow_step, {"C09"}),
         ("argument fingerprint changes over generative_step", c_arg_sha, {"C13"}),
         ("result shares storage", c_shares, {"C13"}),
         ("one environment of a lock-step group gets a different value", c_group, {"C12"}),
